@@ -222,3 +222,79 @@ pub fn replay_one(c: &Value, idx: usize) -> (crate::erralg::Outcome, String, boo
     let _ = json!(null);
     (crate::erralg::Outcome { prop, model }, first_src, panicked)
 }
+
+// ---------------------------------------------------------------------------------------------------
+// impl -> spec: random declarations longer than the exhaustive bounds, recorded for Trace_DeriveOptions.tla
+
+const FIELD_ALPHA: [(&str, &str); 23] = [
+    ("rename", "str"), ("rename", "word"), ("default", "word"), ("default", "path"), ("default", "words"), ("with", "path"), ("with", "closure"), ("with", "str"),
+    ("skip", "word"), ("skip", "false"), ("skip", "str"), ("map", "str"), ("and_then", "path"), ("map", "closure"), ("multiple", "word"), ("multiple", "false"),
+    ("flatten", "word"), ("flatten", "true"), ("bogus", "word"), ("@bare", ""), ("@nv", ""), ("@lit", ""), ("@junk", ""),
+];
+const VARIANT_ALPHA: [(&str, &str); 11] = [
+    ("rename", "str"), ("rename", "true"), ("skip", "word"), ("word", "word"), ("word", "false"), ("word", "str"), ("bogus", "str"), ("@bare", ""), ("@nv", ""), ("@lit", ""), ("@junk", ""),
+];
+const CONT_ALPHA: [(&str, &str); 25] = [
+    ("default", "word"), ("default", "words"), ("rename_all", "rule"), ("rename_all", "str"), ("map", "str"), ("and_then", "str"), ("allow_unknown_fields", "word"),
+    ("allow_unknown_fields", "str"), ("attributes", "words"), ("attributes", "str"), ("forward_attrs", "word"), ("forward_attrs", "words"), ("from_ident", "word"),
+    ("from_word", "path"), ("from_word", "str"), ("from_none", "closure"), ("supports", "shapes"), ("supports", "badshape"), ("supports", "dblprefix"), ("bogus", "words"),
+    ("bogus", "word"), ("@bare", ""), ("@nv", ""), ("@lit", ""), ("@junk", ""),
+];
+
+fn draw(rng: &mut Rng, alpha: &[(&str, &str)], max: usize, clean_bias: bool) -> Vec<Value> {
+    let n = rng.below(max + 1);
+    (0..n).map(|_| {
+        // half of the draws avoid the attribute-syntax items, which end the element's parse early
+        let mut p = *rng.pick(alpha);
+        if clean_bias && p.0.starts_with('@') && rng.chance(3, 4) { p = *rng.pick(&alpha[..alpha.len() - 4]); }
+        json!({"name": p.0, "form": p.1})
+    }).collect()
+}
+
+pub fn record(rng: &mut Rng, n: usize) -> Vec<Value> {
+    const DERIVES: [&str; 6] = ["FromMeta", "FromDeriveInput", "FromField", "FromVariant", "FromTypeParam", "FromAttributes"];
+    const SHAPES: [&str; 10] = ["named", "named", "named", "named_attrs", "enum", "enum", "unit", "newtype", "tuple2", "enum0"];
+    let mut out = vec![];
+    for _ in 0..n {
+        let derive = *rng.pick(&DERIVES);
+        let shape = if rng.chance(1, 40) { "union" } else { *rng.pick(&SHAPES) };
+        let cont = if rng.chance(1, 3) { vec![] } else { draw(rng, &CONT_ALPHA, 6, true) };
+        let fields = shape == "named" || shape == "named_attrs";
+        let f1 = if fields { draw(rng, &FIELD_ALPHA, 5, true) } else { vec![] };
+        let f2 = if shape == "named" { draw(rng, &FIELD_ALPHA, 5, true) } else { vec![] };
+        let v1 = if shape == "enum" { draw(rng, &VARIANT_ALPHA, 4, true) } else { vec![] };
+        let v2 = if shape == "enum" { draw(rng, &VARIANT_ALPHA, 4, true) } else { vec![] };
+        let v1style = if v1.is_empty() { "unit" } else { *rng.pick(&["unit", "unit", "newtype", "struct", "tuple2"]) };
+        let mut c = json!({"derive": derive, "shape": shape, "cont": cont, "f1": f1, "f2": f2, "v1": v1, "v2": v2, "v1style": v1style,
+                           "f2present": !f2.is_empty(), "v2present": !v2.is_empty()});
+        let split = rng.chance(1, 3);
+        let src = format!("\n{}", render(&c, split));
+        let di: syn::DeriveInput = match syn::parse_str(&src) { Ok(d) => d, Err(e) => panic!("harness: unparsable declaration {:?}: {}", src, e) };
+        let (mut is_impl, mut panicked, mut at, mut ndiags) = (false, false, vec![], 0usize);
+        match catch(std::panic::AssertUnwindSafe(|| run_derive(derive, &di))) {
+            Err(_) => panicked = true,
+            Ok(ts) => {
+                let cl = classify(ts, derive);
+                is_impl = cl.impls == 1 && cl.diags.is_empty();
+                let is_diag = cl.impls == 0 && !cl.diags.is_empty();
+                if cl.unparsable.is_some() || !(is_impl || is_diag) || cl.other_items > 0 { panicked = true; }
+                ndiags = cl.diags.len();
+                let pos = positions(&di);
+                for d in &cl.diags {
+                    if d.1 == (1, 0) { at.push(json!([["call_site", 0]])); continue; }
+                    // every position that contains the diagnostic: an option item, its member, the body
+                    let all: Vec<Value> = pos.iter().filter(|(_, r)| within(r, d.1)).map(|(k, _)| json!([k.0, k.1])).collect();
+                    at.push(if all.is_empty() { json!([["nowhere", 0]]) } else { json!(all) });
+                }
+            }
+        }
+        let o = c.as_object_mut().unwrap();
+        o.insert("impl".into(), json!(is_impl));
+        o.insert("panicked".into(), json!(panicked));
+        o.insert("ndiags".into(), json!(ndiags));
+        o.insert("at".into(), json!(at));
+        o.insert("src".into(), json!(src.trim().replace('\n', " ")));
+        out.push(c);
+    }
+    out
+}
